@@ -58,19 +58,62 @@ def leaf_correspondence(ctx):
         e = eltorito.EltoritoEntry()
         try:
             e.new(sc, ls, medias[m], st, boot)
-            e.load_rba = rba
-            exp = e.record()
         except Exception:
             exp = b''
+        else:
+            try:
+                e.load_rba = rba
+                exp = e.record()
+            except Exception as ex:
+                exp = b''
+                if rba < (1 << 32):
+                    ctx.violation('c11:entry-accepted-but-unrecordable', 'C11: EltoritoEntry.new(sector_count=%d, load_seg=%d, %s, system_type=%d) '
+                                  'accepts the entry but record() raises %s: the image cannot be written' % (sc, ls, medias[m], st, type(ex).__name__),
+                                  {'sector_count': sc, 'load_seg': ls, 'media': medias[m], 'system_type': st})
         texts.append('(%s, %s, %s, %s, %s, %s, %s)' % (z(sc), z(ls), z(m), z(st), 'true' if boot else 'false', z(rba), zlist(exp)))
         cases.append({'sector_count': sc, 'load_seg': ls, 'media': medias[m], 'system_type': st, 'bootable': boot, 'rba': rba})
         ctx.case(('etnew', m, sc > 65535, boot), True)
     _eval(ctx, 'Eltorito.entry_new/entry_record vs EltoritoEntry', 'etnew', '(Z * Z * Z * Z * bool * Z * list Z)', texts,
           'bad_entry_new_cases 0', cases)
+    # boot info table checksum: file objects that hold more than the declared length
+    import pycdlib as _p
+    texts, cases = [], []
+    host = _p.PyCdlib()
+    host.new()
+    for _ in range(60 if quick else 800):
+        n = rng.choice([0, 1, 63, 64, 65, 68, 77, 2047, 2048, 2049, 3000, 4096, 4100, rng.randrange(0, 7000)])
+        extra = rng.choice([0, 0, 1, 100, 2048, 5000])
+        data = bytes(rng.randrange(256) for _ in range(n + extra))
+        try:
+            v = host._calculate_eltorito_boot_info_table_csum(io.BytesIO(data), n)
+        except Exception:
+            v = -1
+        texts.append('(%s, %s, %s)' % (zlist(data), z(n), z(v)))
+        cases.append({'data_len': n, 'extra': extra, 'impl': v})
+        ctx.case(('etcsum', n, extra), True)
+        want = sum(int.from_bytes(data[:n][i:i + 4].ljust(4, b'\x00'), 'little') for i in range(64, n, 4)) & 0xffffffff
+        if v != want:
+            ctx.violation('c11:boot-info-checksum:not-the-files-words', 'C11: the boot info table checksum of a %d-byte boot file read from a file '
+                          'object holding %d more bytes is %d, the sum of the file\'s own little-endian words from offset 64 is %d'
+                          % (n, extra, v, want), {'data_len': n, 'extra': extra})
+            break
+    host.close()
+    bad, err = common.coq_bad_cases('etbit', ['From PV.Model Require Import Eltorito.'],
+                                    ['Fixpoint bit_bad (k : nat) (cs : list (list Z * Z * Z)) : list nat := match cs with [] => [] | (fp, n, e) :: r => '
+                                     'if (match bit_csum fp n with Some v => v =? e | None => e =? -1 end) then bit_bad (S k) r else k :: bit_bad (S k) r end.'],
+                                    '(list Z * Z * Z)', texts, 'bit_bad 0', shard=20)
+    name = 'Eltorito.bit_csum vs PyCdlib._calculate_eltorito_boot_info_table_csum'
+    if bad is None:
+        ctx.broken.append({'name': 'correspondence:' + name, 'summary': 'model evaluation failed: ' + err})
+    else:
+        ctx.cov['traces_validated_against_impl'] += len(texts) - len(bad)
+        ctx.cov['correspondences'][name] = {'cases': len(texts), 'disagreements': len(bad)}
+        for i in bad[:2]:
+            ctx.broken.append({'name': 'correspondence:' + name, 'summary': 'the checksum model and pycdlib disagree', 'case': cases[i]})
     # whole catalogs recorded by real objects; parse + re-record must give the same bytes
     texts, cases = [], []
     for _ in range(25 if quick else 300):
-        nsec = rng.choice([0, 1, 2, 3, 5, 8, 30])
+        nsec = rng.choice([0, 1, 2, 3, 5, 8, 30, 31])
         iso = pycdlib.PyCdlib()
         iso.new()
         for i in range(nsec + 1):
@@ -88,11 +131,13 @@ def leaf_correspondence(ctx):
                 kw['efi'] = True
             if rng.random() < 0.3:
                 kw['platform_id'] = rng.choice([0, 1, 2, 0xef])
+            if rng.random() < 0.2:
+                kw['bootable'] = False
             iso.add_eltorito('/B%d.;1' % i, **kw)
         iso.force_consistency()
         raw = iso.eltorito_boot_catalog.record()
         iso.close()
-        texts.append(zlist(raw + b'\x00' * 32))
+        texts.append(zlist(raw.ljust(2048, b'\x00') + b'boot\n' + b'\x00' * 59))      # the catalog block and the start of the next extent
         cases.append({'sections': nsec, 'bytes': raw.hex()[:400]})
         ctx.case(('etcat', nsec), nsec > 0)
     _eval(ctx, 'Eltorito.parse_catalog/cat_record vs EltoritoBootCatalog.record()', 'etcat', 'list Z', texts, 'bad_catalog_cases 0', cases, shard=5)
